@@ -22,6 +22,7 @@ EXPLANATION = (
     "separator constants. NOT decided: byte-exact output for given handlers.")
 
 RULES = {
+    "C06-N": "no integer on this property's data path is narrowed by an implicit conversion (parameter handed to a narrower parameter, stored in a narrower field, or a narrow field behind a wider accessor)",
     "C06-XC": "(thorough) decision tables of the configuration-independent functions of this property are identical in every build configuration",
     "C06-F1": "item writers: delimiter before the first data write on every path; every path that wrote data leaves output_count incremented",
     "C06-F1b": "the ',' write is guarded by output_count > 0; the block data call counts the item exactly when remaining reaches 0 on every non-error path",
@@ -475,6 +476,43 @@ def rule_f3_f4(ck, prog, S):
     ck.analysed(parse, wnl, wd)
 
 
+def rule_transport(ck, prog, S):
+    """the transport wrappers (writeData, flushData) decide only on the presence of the callback: whether something is
+    written / flushed is decided by their callers (F3), not by per-unit state inside the wrapper"""
+    for name, cb in (("flushData", "flush"), ("writeData", "write")):
+        f = prog.fn(name)
+        if f is None:
+            continue
+        ck.analysed(f)
+        calls = [c for c in f.calls() if c.get("callee") is None and cb in (c.get("callee_path") or c.src)]
+        st = K.site(f, "callback-guard", 0)
+        if not calls:
+            ck.anchor_lost("C06-F3", "call of interface->%s in %s" % (cb, name))
+            continue
+        extra = []
+        for atom, pol in K.facts_at(S, f, calls[0]) or []:
+            if isinstance(pol, tuple):
+                extra.append(atom.src)
+                continue
+            a = atom.strip_all_casts()
+            if a.k == "BinaryOperator" and a.get("op") in ("&&", "||"):
+                continue
+            if a.get("tk") == "ptr" or (a.k == "BinaryOperator" and a.get("op") in ("!=", "==") and
+                                        (a.child(0).strip_all_casts().get("tk") == "ptr" or a.child(1).strip_all_casts().get("tk") == "ptr")):
+                continue
+            # a length test of the data handed in is part of "is there something to write"
+            names = {x.get("path") for x in a.walk() if x.k == "DeclRefExpr"}
+            if names and names <= {p_["name"] for p_ in f.params if p_["type"].get("tk") == "int"}:
+                continue
+            extra.append(atom.src)
+        if extra:
+            ck.violated("C06-F3", st, K.loc(f, calls[0]),
+                        "%s calls the transport's %s only under %s: the decision depends on state of the current unit, so a message whose "
+                        "last unit produced nothing is terminated but not flushed (`*ESR?;*CLS`)" % (name, cb, extra))
+        else:
+            ck.holds("C06-F3", st, K.loc(f, calls[0]), "%s is called whenever the callback exists" % cb)
+
+
 def rule_f7(ck, prog):
     """the comma decision reads the per-unit item counter: it must be able to count every item one unit can produce"""
     rec = prog.records.get("_scpi_t")
@@ -513,6 +551,8 @@ def run(ck, fb, tier):
         rule_f6(ck, prog, S)
         rule_f3_f4(ck, prog, S)
         rule_f7(ck, prog)
+        rule_transport(ck, prog, S)
+        K.narrowing_rule(ck, prog, "C06-N", lambda f_: f_.relfile.endswith("parser.c") and (f_.name.startswith(("SCPI_Result", "write", "produceResult")) or f_.name in ("processCommand",)))
     ck.assume("handlers emit results only through the SCPI_Result* API")
     if tier == "thorough":
         K.cross_config(ck, fb, "C06-XC", ['processCommand', 'writeDelimiter', 'writeNewLine', 'SCPI_ResultArbitraryBlockData', 'SCPI_ResultText'])
